@@ -44,9 +44,17 @@ def demo_run(d, k, label):
     ns = glob.glob(os.path.join(d, f"demo{k}*.ns"))
     if ns:
         rc, out = sh(["cargo", "build", "--offline", "--bin", "naija"], cwd=WT)
+        stdin_file = os.path.join(d, f"demo{k}.stdin")
+        stdin = open(stdin_file, errors="replace").read() if os.path.exists(stdin_file) else None
         for f in ns:
-            rc, out = sh([os.path.join(TARGET, "debug", "naija"), f], timeout=60)
+            rc, out = sh([os.path.join(TARGET, "debug", "naija"), f], timeout=60, stdin=stdin)
             res[os.path.basename(f)] = {"rc": rc, "out": out[-1500:]}
+    shs = glob.glob(os.path.join(d, f"demo{k}*.sh"))
+    if shs:
+        sh(["cargo", "build", "--offline", "--bin", "naija"], cwd=WT)
+        for f in shs:
+            rc, out = sh(["sh", f, os.path.join(TARGET, "debug", "naija")], timeout=300, stdin="")
+            res[os.path.basename(f)] = {"rc": rc, "out": out[-3000:]}
     return res
 
 
